@@ -1313,6 +1313,11 @@ func (l *Lowerer) coerceScalarToType(kind ir.ScalarKind, bits uint64, typeHandle
 	if !ok {
 		return kind, bits
 	}
+	return coerceScalarToScalar(kind, bits, scalar)
+}
+
+// coerceScalarToScalar converts a literal's kind and bits to the given scalar type.
+func coerceScalarToScalar(kind ir.ScalarKind, bits uint64, scalar ir.ScalarType) (ir.ScalarKind, uint64) {
 	targetKind := scalar.Kind
 	if targetKind == kind {
 		return kind, bits
@@ -10188,39 +10193,46 @@ func (l *Lowerer) scalarValueToLiteralWithType(sv ir.ScalarValue, typeHandle ir.
 	// Get the scalar type width from the type arena
 	if int(typeHandle) < len(l.module.Types) {
 		if st, ok := l.module.Types[typeHandle].Inner.(ir.ScalarType); ok {
-			switch sv.Kind {
-			case ir.ScalarFloat, ir.ScalarAbstractFloat:
-				switch st.Width {
-				case 2:
-					return ir.LiteralF16(halfToFloat32(uint16(sv.Bits)))
-				case 4:
-					return ir.LiteralF32(math.Float32frombits(uint32(sv.Bits)))
-				case 8:
-					if sv.Kind == ir.ScalarAbstractFloat {
-						// Concretize AbstractFloat → F32 when deep-copying to function
-						return ir.LiteralF32(math.Float32frombits(uint32(sv.Bits)))
-					}
-					return ir.LiteralF64(math.Float64frombits(sv.Bits))
-				}
-			case ir.ScalarSint, ir.ScalarAbstractInt:
-				switch st.Width {
-				case 8:
-					if sv.Kind == ir.ScalarAbstractInt {
-						// Concretize AbstractInt → I32 when deep-copying to function
-						return ir.LiteralI32(int32(sv.Bits))
-					}
-					return ir.LiteralI64(int64(sv.Bits))
-				default:
-					return ir.LiteralI32(int32(sv.Bits))
-				}
-			case ir.ScalarUint:
-				switch st.Width {
-				case 8:
-					return ir.LiteralU64(sv.Bits)
-				default:
-					return ir.LiteralU32(uint32(sv.Bits))
-				}
+			return scalarValueToLiteralWithScalar(sv, st)
+		}
+	}
+	// Fallback to non-type-aware conversion
+	return scalarValueToLiteral(sv)
+}
+
+// scalarValueToLiteralWithScalar converts a ScalarValue to a LiteralValue of the given scalar type's width.
+func scalarValueToLiteralWithScalar(sv ir.ScalarValue, st ir.ScalarType) ir.LiteralValue {
+	switch sv.Kind {
+	case ir.ScalarFloat, ir.ScalarAbstractFloat:
+		switch st.Width {
+		case 2:
+			return ir.LiteralF16(halfToFloat32(uint16(sv.Bits)))
+		case 4:
+			return ir.LiteralF32(math.Float32frombits(uint32(sv.Bits)))
+		case 8:
+			if sv.Kind == ir.ScalarAbstractFloat {
+				// Concretize AbstractFloat → F32 when deep-copying to function
+				return ir.LiteralF32(math.Float32frombits(uint32(sv.Bits)))
 			}
+			return ir.LiteralF64(math.Float64frombits(sv.Bits))
+		}
+	case ir.ScalarSint, ir.ScalarAbstractInt:
+		switch st.Width {
+		case 8:
+			if sv.Kind == ir.ScalarAbstractInt {
+				// Concretize AbstractInt → I32 when deep-copying to function
+				return ir.LiteralI32(int32(sv.Bits))
+			}
+			return ir.LiteralI64(int64(sv.Bits))
+		default:
+			return ir.LiteralI32(int32(sv.Bits))
+		}
+	case ir.ScalarUint:
+		switch st.Width {
+		case 8:
+			return ir.LiteralU64(sv.Bits)
+		default:
+			return ir.LiteralU32(uint32(sv.Bits))
 		}
 	}
 	// Fallback to non-type-aware conversion
@@ -16176,8 +16188,14 @@ func (l *Lowerer) buildGlobalExprFromAST(
 		if err != nil {
 			return 0, false
 		}
-		// Coerce to the expected type if known.
-		kind, bits = l.coerceScalarToType(kind, bits, expectedType)
+		// Coerce to the expected type if known. This runs after CompactTypes, so the
+		// handle is looked up in the module's arena (the registry still has the
+		// handles from before compaction).
+		if int(expectedType) < len(l.module.Types) {
+			if scalar, ok := l.module.Types[expectedType].Inner.(ir.ScalarType); ok {
+				kind, bits = coerceScalarToScalar(kind, bits, scalar)
+			}
+		}
 		sv := ir.ScalarValue{Bits: bits, Kind: kind}
 		lit := l.scalarValueToLiteralWithType(sv, expectedType)
 		if lit == nil {
@@ -16236,7 +16254,10 @@ func (l *Lowerer) buildGlobalExprFromAST(
 					for c := 0; c < cols; c++ {
 						rowHandles := make([]ir.ExpressionHandle, rows)
 						for r := 0; r < rows; r++ {
-							h, ok := l.buildGlobalExprFromAST(e.Args[c*rows+r], scalarType, addExpr)
+							h, ok := l.buildGlobalScalarFromAST(e.Args[c*rows+r], mat.Scalar, addExpr)
+							if !ok {
+								h, ok = l.buildGlobalExprFromAST(e.Args[c*rows+r], scalarType, addExpr)
+							}
 							if !ok {
 								return 0, false
 							}
@@ -16263,8 +16284,34 @@ func (l *Lowerer) buildGlobalExprFromAST(
 			return l.expandZeroConstructGE(typeH, addExpr)
 		}
 
+		// The scalar type of a vector need not be in the arena (CompactTypes removes
+		// it when only the vector refers to it): its literal components are coerced
+		// by the vector's scalar, not through a type handle.
+		var vecScalar *ir.ScalarType
+		if int(typeH) < len(l.module.Types) {
+			if vec, ok := l.module.Types[typeH].Inner.(ir.VectorType); ok {
+				vecScalar = &vec.Scalar
+			}
+		}
+
 		components := make([]ir.ExpressionHandle, len(e.Args))
 		for i, arg := range e.Args {
+			if vecScalar != nil {
+				if h, ok := l.buildGlobalScalarFromAST(arg, *vecScalar, addExpr); ok {
+					components[i] = h
+					continue
+				}
+				// A shorter vector among the components, vec4<i32>(vec2<i32>(1, 2), 3, 4),
+				// has the parent's scalar and as many components as its name says.
+				if size := constructedVectorSize(arg); size != 0 {
+					h, ok := l.buildGlobalExprFromAST(arg, l.findVectorType(size, *vecScalar), addExpr)
+					if !ok {
+						return 0, false
+					}
+					components[i] = h
+					continue
+				}
+			}
 			h, ok := l.buildGlobalExprFromAST(arg, componentType, addExpr)
 			if !ok {
 				return 0, false
@@ -16320,6 +16367,61 @@ func (l *Lowerer) buildGlobalExprFromAST(
 		}
 		return 0, false
 
+	default:
+		return 0, false
+	}
+}
+
+// constructedVectorSize returns the size of the vector a constructor expression
+// vecN(...), vecN<T>(...) or vecNi/u/f/h(...) builds, or 0 for any other expression.
+func constructedVectorSize(expr parser.Expr) ir.VectorSize {
+	ce, ok := expr.(*parser.ConstructExpr)
+	if !ok {
+		return 0
+	}
+	nt, ok := ce.Type.(*parser.NamedType)
+	if !ok || len(nt.Name) < 4 || len(nt.Name) > 5 || nt.Name[:3] != "vec" {
+		return 0
+	}
+	switch nt.Name[3] {
+	case '2':
+		return ir.Vec2
+	case '3':
+		return ir.Vec3
+	case '4':
+		return ir.Vec4
+	}
+	return 0
+}
+
+// buildGlobalScalarFromAST converts a literal, or a negated literal, to a global
+// expression of the given scalar type. Returns (0, false) for any other expression.
+func (l *Lowerer) buildGlobalScalarFromAST(
+	expr parser.Expr,
+	scalar ir.ScalarType,
+	addExpr func(ir.ExpressionKind) ir.ExpressionHandle,
+) (ir.ExpressionHandle, bool) {
+	switch e := expr.(type) {
+	case *parser.Literal:
+		kind, bits, err := l.evalLiteral(e)
+		if err != nil {
+			return 0, false
+		}
+		kind, bits = coerceScalarToScalar(kind, bits, scalar)
+		lit := scalarValueToLiteralWithScalar(ir.ScalarValue{Bits: bits, Kind: kind}, scalar)
+		if lit == nil {
+			return 0, false
+		}
+		return addExpr(ir.Literal{Value: lit}), true
+	case *parser.UnaryExpr:
+		if e.Op != parser.TokenMinus {
+			return 0, false
+		}
+		h, ok := l.buildGlobalScalarFromAST(e.Operand, scalar, addExpr)
+		if !ok {
+			return 0, false
+		}
+		return addExpr(ir.ExprUnary{Op: ir.UnaryNegate, Expr: h}), true
 	default:
 		return 0, false
 	}
@@ -16402,14 +16504,17 @@ func (l *Lowerer) findScalarType(kind ir.ScalarKind, width uint8) ir.TypeHandle 
 	return 0
 }
 
-// findVectorType finds an existing vector type handle without creating a new one.
+// findVectorType finds an existing vector type handle. When CompactTypes removed the
+// type (nothing referred to it before the global expressions were built) it is appended
+// to the module's arena directly, not through the registry, whose handles are stale.
 func (l *Lowerer) findVectorType(size ir.VectorSize, scalar ir.ScalarType) ir.TypeHandle {
 	for i, t := range l.module.Types {
 		if vt, ok := t.Inner.(ir.VectorType); ok && vt.Size == size && vt.Scalar == scalar {
 			return ir.TypeHandle(i)
 		}
 	}
-	return 0
+	l.module.Types = append(l.module.Types, ir.Type{Inner: ir.VectorType{Size: size, Scalar: scalar}})
+	return ir.TypeHandle(len(l.module.Types) - 1)
 }
 
 // buildOverrideGlobalExpr recursively builds global expressions from an
